@@ -1,6 +1,6 @@
 (* Lmmm/Examples.v — concrete programs used as witnesses / satisfiability examples. *)
 From Coq Require Import List ZArith NArith Bool.
-From Mimium Require Import StateTree.Model Lmmm.Syntax Lmmm.Ref Lmmm.Compile Lmmm.Machine Lmmm.Wf Lmmm.Spec.
+From Mimium Require Import StateTree.Model Lmmm.Syntax Lmmm.Ref Lmmm.Compile Lmmm.Machine Lmmm.Wf Lmmm.HotSwap Lmmm.Spec.
 Import ListNotations.
 Local Open Scope N_scope.
 
@@ -89,4 +89,54 @@ Lemma ex_prog2_streams :
   option_map fst (ref_run ex_prog2 0 [[1]; [2]; [3]; [4]]%Z st0) = Some [[0; 1]; [1; 5]; [4; 12]; [9; 20]]%Z /\
   outs_of (mach_run VmD ex_prog2 (compiled ex_prog2) 0 [[1]; [2]; [3]; [4]]%Z m0)
   = [Some [0; 1]; Some [1; 5]; Some [4; 12]; Some [9; 20]]%Z.
+Proof. vm_compute. auto. Qed.
+
+(* ---------- voices (C07) ---------- *)
+Definition vfuns : list fundef :=
+  [ mkFun 1 [10] (EBin OAdd ESelf (EVar 10));
+    mkFun 2 [11] (EBin OAdd (EMem (EVar 11)) (EDelay 3 (EVar 11) (ELit 2))) ].
+(* old: (cnt(1), f2(3));  new: a voice cnt(5) inserted in between *)
+Definition v_old : program := mkProg vfuns [] [] [ ECall 1 [ELit 1]; ECall 2 [ELit 3] ].
+Definition v_new : program := mkProg vfuns [] [] [ ECall 1 [ELit 1]; ECall 1 [ELit 5]; ECall 2 [ELit 3] ].
+
+Lemma v_progs_ok :
+  wf_prog v_old = true /\ wf_prog v_new = true /\
+  compile v_old = Some (compiled v_old) /\ compile v_new = Some (compiled v_new).
+Proof. vm_compute. auto. Qed.
+
+Lemma v_plan :
+  plan (published_skeleton (compiled v_old)) (published_skeleton (compiled v_new))
+  = Some (8, [mkPatch 0 1 1; mkPatch 1 2 6]).
+Proof. vm_compute. reflexivity. Qed.
+
+Lemma v_ranges :
+  voice_range v_old 1 = Some (1, 6) /\ voice_range v_new 2 = Some (2, 6) /\ voice_range v_new 0 = Some (0, 1) /\
+  closed_voice v_old (ECall 2 [ELit 3]) = true /\ closed_voice v_new (ECall 2 [ELit 3]) = true /\
+  closed_voice v_new (ECall 1 [ELit 1]) = true.
+Proof. vm_compute. auto 10. Qed.
+
+Lemma v_carried : voice_carried (published_skeleton (compiled v_old)) (published_skeleton (compiled v_new)) 1 2 6.
+Proof.
+  unfold voice_carried. rewrite v_plan. exists (mkPatch 1 2 6). split; [right; left; reflexivity|].
+  vm_compute. repeat split; intros H; discriminate H.
+Qed.
+
+Lemma v_unwritten : voice_unwritten (published_skeleton (compiled v_old)) (published_skeleton (compiled v_new)) 0 1.
+Proof.
+  unfold voice_unwritten. rewrite v_plan. intros pt k Hin Hk.
+  assert (k = 0) by (destruct k as [|[q|q|]]; [reflexivity|destruct q; discriminate Hk..|discriminate Hk]). subst k.
+  destruct Hin as [<-|[<-|[]]]; cbn [p_dst p_sz]; intros [H1 H2]; vm_compute in H1; apply H1; reflexivity.
+Qed.
+
+(* concrete runs: 3 samples of the old program, hot swap, 3 samples of the new program.
+   f2(3) (old channel 1 -> new channel 2) continues; the state of the old cnt(1) is carried to the NEW voice
+   cnt(5) (identically shaped sibling, LCS tie), the unchanged source voice cnt(1) restarts from zero *)
+Lemma v_swap_run :
+  map (chan 1) (outs_of (mach_run VmD v_old (compiled v_old) 0 [[];[];[];[];[];[]] m0))
+    = [Some 0; Some 3; Some 6; Some 6; Some 6; Some 6]%Z /\
+  map (chan 0) (outs_of (mach_run VmD v_old (compiled v_old) 0 [[];[];[];[];[];[]] m0))
+    = [Some 1; Some 2; Some 3; Some 4; Some 5; Some 6]%Z /\
+  option_map (fun r => (map (chan 0) (outs_of r), map (chan 1) (outs_of r), map (chan 2) (outs_of r)))
+             (swap_run VmD v_old (compiled v_old) v_new (compiled v_new) [[];[];[]] [[];[];[]])
+    = Some ([Some 1; Some 2; Some 3], [Some 8; Some 13; Some 18], [Some 6; Some 6; Some 6])%Z.
 Proof. vm_compute. auto. Qed.
